@@ -135,6 +135,13 @@ def ground_predicate(
         for param, param_type in domain.predicates[predicate_name].signature.items()
     }
     predicate_params = list(predicate.signature.keys())
+    if len(predicate_params) != len(predicate_signature):
+        # also covers literals with a repeated parameter since signatures cannot represent them.
+        raise ValueError(
+            f"The literal {predicate.untyped_representation} of the action {action.name} does not match "
+            f"the definition of the predicate {str(domain.predicates[predicate_name])}"
+        )
+
     if len(domain.constants) > 0:
         predicate_params.extend(list(domain.constants.keys()))
 
